@@ -1,6 +1,7 @@
 package serf
 
 import (
+	"fmt"
 	"log"
 	"os"
 	"os/exec"
@@ -22,34 +23,38 @@ func TestVerifReplayC11CrashAtRename(t *testing.T) {
 		t.Logf("REPLAY-NOT-REPRODUCED C11: strace is not available, no crash was injected")
 		return
 	}
-	dir := t.TempDir()
-	cmd := exec.Command(strace, "-f", "-qq", "-o", os.DevNull, "-e", "trace=rename,renameat,renameat2",
-		"-e", "inject=rename,renameat,renameat2:signal=KILL:when=1", os.Args[0], "-test.run", "^TestVerifReplayC11CrashAtRename$")
-	cmd.Env = append(os.Environ(), "VERIF_C11_DIR="+dir)
-	out, _ := cmd.CombinedOutput()
-	if cmd.ProcessState == nil || cmd.ProcessState.Success() {
-		t.Logf("REPLAY-NOT-REPRODUCED C11: the child was not killed at a rename (no compaction happened?) %s", out)
-		return
+	// the kill is injected at the first, second and third rename the process makes: a compaction that goes through a
+	// backup name has its window at a later rename
+	for when := 1; when <= 3; when++ {
+		dir := t.TempDir()
+		cmd := exec.Command(strace, "-f", "-qq", "-o", os.DevNull, "-e", "trace=rename,renameat,renameat2",
+			"-e", fmt.Sprintf("inject=rename,renameat,renameat2:signal=KILL:when=%d", when), os.Args[0], "-test.run", "^TestVerifReplayC11CrashAtRename$")
+		cmd.Env = append(os.Environ(), "VERIF_C11_DIR="+dir)
+		out, _ := cmd.CombinedOutput()
+		if cmd.ProcessState == nil || cmd.ProcessState.Success() {
+			t.Logf("REPLAY-NOT-REPRODUCED C11: the child was not killed at rename #%d (no such step) %s", when, out)
+			continue
+		}
+		// restart from what the crash left behind
+		clock := new(LamportClock)
+		stopCh := make(chan struct{})
+		_, snap, err := NewSnapshotter(filepath.Join(dir, "snap"), 1<<20, false, log.New(os.Stderr, "", 0), clock, nil, stopCh)
+		if err != nil {
+			t.Fatalf("restart: %v", err)
+		}
+		alive := snap.AliveNodes()
+		entries, _ := os.ReadDir(dir)
+		var names []string
+		for _, e := range entries {
+			names = append(names, e.Name())
+		}
+		close(stopCh)
+		if len(alive) < 2 {
+			t.Logf("REPLAY-CONFIRMED C11: killed at rename #%d of snapshot maintenance, the restart recovered %d of the 2 recorded members (last clock %d); directory after the crash and restart: %v", when, len(alive), snap.LastClock(), names)
+			return
+		}
+		t.Logf("REPLAY-NOT-REPRODUCED C11: after a kill at rename #%d the restart recovered %d members; directory: %v", when, len(alive), names)
 	}
-	// restart from what the crash left behind
-	clock := new(LamportClock)
-	stopCh := make(chan struct{})
-	defer close(stopCh)
-	_, snap, err := NewSnapshotter(filepath.Join(dir, "snap"), 1<<20, false, log.New(os.Stderr, "", 0), clock, nil, stopCh)
-	if err != nil {
-		t.Fatalf("restart: %v", err)
-	}
-	alive := snap.AliveNodes()
-	entries, _ := os.ReadDir(dir)
-	var names []string
-	for _, e := range entries {
-		names = append(names, e.Name())
-	}
-	if len(alive) < 2 {
-		t.Logf("REPLAY-CONFIRMED C11: killed at the rename step of a compaction, the restart recovered %d of the 2 recorded members (last clock %d); directory after the crash: %v", len(alive), snap.LastClock(), names)
-		return
-	}
-	t.Logf("REPLAY-NOT-REPRODUCED C11: after a kill at the rename step the restart recovered %d members; directory after the crash: %v", len(alive), names)
 }
 
 func c11Child(t *testing.T, dir string) {
